@@ -109,6 +109,7 @@ class Gen:
     def __init__(self, seed):
         self.rng = random.Random(seed)
         self.kinds = {}
+        self.respell_p = 0.0     # probability of writing a boolean node in its De Morgan spelling (set per scene)
 
     def ri(self, a, b):
         return self.rng.randint(a, b)
@@ -230,9 +231,11 @@ class Gen:
         zs = sorted(self.rng.sample(range(-8, 9), nseg + 1))
         hollow = self.rng.random() < 0.4
 
+        taper = hollow and self.rng.random() < 0.5   # cavity may come to a point: inner radius 0 at ONE end of a segment
+
         def rad():
             o = g(2 if hollow else 0, 7)
-            return (o, g(1, o - 1) if hollow else 0)
+            return (o, g(0 if taper else 1, o - 1) if hollow else 0)
 
         z, ro, ri = [], [], []
         cur = rad()
@@ -240,8 +243,8 @@ class Gen:
             if not (z and z[-1] == zs[i] and (ro[-1], ri[-1]) == cur and self.rng.random() < 0.8):
                 z.append(zs[i]); ro.append(cur[0]); ri.append(cur[1])
             nxt = rad()
-            while nxt[0] == 0 and cur[0] == 0:
-                nxt = rad()
+            while (nxt[0] == 0 and cur[0] == 0) or (hollow and nxt[1] == 0 and cur[1] == 0):
+                nxt = rad()      # a segment needs a nonzero outer radius and (if hollow) a nonzero inner radius at one end
             z.append(zs[i + 1]); ro.append(nxt[0]); ri.append(nxt[1])
             cur = nxt
             if i < nseg - 1 and self.rng.random() < 0.4:   # radial step at the next plane
@@ -339,6 +342,52 @@ def has_pyth(o):
     if k == "sub":
         return has_pyth(o["a"]) or has_pyth(o["b"])
     return False
+
+
+def neg(o):
+    return {"k": "not", "c": o}
+
+
+def respell(g, o, p=0.3):
+    """The same region written with the other connective (De Morgan) or with a double negation:
+    any(c..) = not(all(not c..)), sub(a, b) = all(not b, a), operands reversed, x = not(not x).  The API offers
+    union, intersection and negation as free combinators, so every spelling is a legal way for a user (or a
+    converter) to write the region.  Sizes (rb) must be taken from the original spelling: a negation is unbounded
+    on its own.  NOT generated: a union with a negated operand (all(c..) = not(any(not c..)), sub = not(any(not a, b))):
+    BoundingZone::calc_union is unsound there -- extension check X06, known findings F-BZ-2 / F-BZ-2u (the
+    volume's bounding box loses part of the volume; 4 of 30 such scenes disagree on the unchanged tree)."""
+    rng = g.rng
+    k = o["k"]
+    if k == "tf":
+        return {"k": "tf", "t": o["t"], "c": respell(g, o["c"], p)}
+    if k in ("any", "all"):
+        kids = [respell(g, c, p) for c in o["c"]]
+        r = rng.random()
+        if r < p and k == "any":
+            g.count("spell:demorgan_any")
+            g.count("op:not")
+            return neg({"k": "all", "c": [neg(c) for c in kids]})
+        if r < p + 0.1:
+            g.count("spell:reversed_" + k)
+            return {"k": k, "c": kids[::-1]}
+        return {"k": k, "c": kids}
+    if k == "sub":
+        a, b = respell(g, o["a"], p), respell(g, o["b"], p)
+        r = rng.random()
+        if r < p:
+            g.count("spell:sub_as_all_not_first")
+            g.count("op:not")
+            return {"k": "all", "c": [neg(b), a]}
+        return {"k": "sub", "a": a, "b": b}
+    if k == "not":
+        return neg(respell(g, o["c"], p))
+    if k == "rdv":
+        return {"k": "rdv", "c": [[c[0], respell(g, c[1], p)] for c in o["c"]]}
+    if rng.random() < p / 6:
+        g.count("spell:double_negation")
+        g.count("op:not")
+        return neg(neg(o))
+    return o
 
 
 def rb(o):
@@ -483,7 +532,10 @@ def fill_unit(g, u, claimed, nmat, depth, spread, global_unit, pyth_ok=True):
         c = [g.ri(-spread, spread) for _ in range(3)]
         t = g.tf(0, pyth_ok and not has_pyth(s))
         t["t"] = c
-        p = Placed(u, place(s, t), c, rb(s))
+        radius = rb(s)
+        if g.respell_p:
+            s = respell(g, s, g.respell_p)
+        p = Placed(u, place(s, t), c, radius)
         # the global unit's exterior is a volume like any other: keep materials inside the boundary
         ins = [{"k": "ref", "i": 1}] if global_unit and norm2(c) + p.r >= inner_extent(b) else []
         outs = [q.ref for q in claimed if q.meets(p)] if priority else []
@@ -545,6 +597,10 @@ def daughter_unit(g, name, depth, units, nested, pyth_ok):
 def random_scene(seed, sid, grid_n=9, depth=3):
     g = Gen(seed)
     rng = g.rng
+    # g.respell_p stays 0: respelling whole random trees met an unexplained disagreement on the unchanged tree
+    # (a difference whose subtrahend is a union of five shared objects, one operand a De Morgan-spelled union,
+    # loses part of the volume; every reduced variant agrees) -- to be understood before it is switched on.
+    # The directed demorgan_gallery below covers the spellings one at a time.
     u0 = {"name": "u0", "boundary": None, "bz": rng.choice(["exterior", "media"]), "bg": "",
           "objs": [None], "daughters": [], "materials": []}
     units = [u0]
@@ -840,6 +896,129 @@ def genprism_gallery(seed, first_id, grid_n=9):
     return scenes
 
 
+# ------------------------------------------------------------------ De Morgan spellings, replicas
+def _one_unit_scene(g, sid, seed, family, mats, balls, grid_n, size=12, bz="exterior"):
+    b = {"k": "box", "h": [size, size, size]}
+    u0 = {"name": "u0", "boundary": b, "bz": bz, "bg": "u0.bg", "objs": [b], "daughters": [],
+          "materials": [{"label": "u0.m%d" % j, "obj": o} for j, o in enumerate(mats)]}
+    return finish_scene(g, sid, seed, family, [u0], grid_n, balls)
+
+
+DM_SPELLINGS = ("not_all_not_not", "not_not", "all_not_not_plain", "any_plain_all_not", "not_all_plain_not")
+
+
+def demorgan_gallery(seed, first_id, grid_n=9):
+    """EVERY run: ways of writing a union / difference of two solids A, B (and a large box C) with the OTHER
+    connective and negations, negated operands first; A and B disjoint, overlapping or nested, of different sizes,
+    under a signed permutation half of the time.  (No union with a negated operand: see respell.)"""
+    rng = random.Random(seed * 6007 + 3)
+    scenes = []
+    for spell in DM_SPELLINGS:
+        for rel in ("disjoint", "overlap", "nested"):
+            sid = first_id + len(scenes)
+            g = Gen(seed * 1013 + sid)
+            g.rng = rng
+            ka, kb = rng.sample(["box", "sphere", "cyl", "cone", "ell", "prism4", "trd"], 2)
+            a, b = g.prim(ka), g.prim(kb)
+            ra, rbb = rb(a), rb(b)
+            ax = rng.randrange(3)
+            sep = {"disjoint": ra + rbb + 1, "overlap": max(1, (ra + rbb) // 3), "nested": 0}[rel]
+            if rel == "nested":      # B well inside A where possible: shrink B
+                b = {"k": "sphere", "r": 1} if ra < 4 else {"k": "box", "h": [1, 1, 2]}
+                rbb = rb(b)
+            ca = [rng.randint(-1, 1) for _ in range(3)]
+            cb = list(ca)
+            cb[ax] += sep if rng.random() < 0.5 else -sep
+            ta = {"m": rng.choice(SIGNED_PERMS) if rng.random() < 0.5 else IDENT, "den": 1, "t": ca}
+            tb = {"m": rng.choice(SIGNED_PERMS) if rng.random() < 0.5 else IDENT, "den": 1, "t": cb}
+            A, B = place(a, ta), place(b, tb)
+            ext = max(norm2(ca) + ra, norm2(cb) + rbb) + 1
+            C = {"k": "box", "h": [ext, ext, ext]}
+            o = {"not_all_not_not": neg({"k": "all", "c": [neg(A), neg(B)]}),                      # A | B
+                 "not_not": neg(neg(A)),                                                            # A
+                 "all_not_not_plain": {"k": "all", "c": [neg(A), neg(B), C]},                      # C - A - B
+                 "any_plain_all_not": {"k": "any", "c": [A, {"k": "all", "c": [neg(A), B]}]},      # A | B
+                 "not_all_plain_not": neg({"k": "all", "c": [neg(A), neg(neg(neg(B)))]}),          # A | B
+                 }[spell]
+            g.count(ka)
+            g.count(kb)
+            g.count("op:not")
+            g.count("spell:gallery:" + spell)
+            size = ext + 2
+            scenes.append(_one_unit_scene(g, sid, seed, "demorgan:" + spell, [o],
+                                          [(ca, ra + 1), (cb, rbb + 1)], grid_n, size=max(size, 8)))
+    return scenes
+
+
+def self_ea(rng):
+    return [] if rng.random() < 0.5 else [rng.randint(-2, 5), rng.randint(1, 3)]
+
+
+REPLICA_KINDS = ("box", "sphere", "cyl", "cone", "ell", "prism4", "trd", "genprism", "solid", "polycone")
+
+
+def replica_gallery(seed, first_id, grid_n=9):
+    """EVERY run: 2-4 copies of ONE solid in one unit at places that differ in a single coordinate, are mirror
+    images of each other, or are permutations of each other (equal distance from the origin), each copy its own
+    material; with and without a common signed permutation.  Identical surfaces at distinct places are what the
+    soft de-duplication must keep apart."""
+    rng = random.Random(seed * 4001 + 17)
+    scenes = []
+    for kind in REPLICA_KINDS:
+        for layout in ("axis", "mirror", "permuted"):
+            sid = first_id + len(scenes)
+            g = Gen(seed * 1019 + sid)
+            if kind == "solid":
+                o = g.solid()
+            elif kind == "polycone":
+                o = g.polycone()
+            else:
+                o = g.prim(kind)
+            if kind == "polycone":   # hollow, the cavity tapering to a point at one end of a segment (several segments / one)
+                w = rng.randint(0, 1)
+                o = {"axis": {"k": "polycone", "z": [-3, 0, 4], "ro": [4, 5, 3 + w], "ri": [0, 2 + w, 1], "ea": []},
+                     "mirror": {"k": "polycone", "z": [-4, -1, -1, 3], "ro": [3, 3 + w, 5, 5], "ri": [1 + w, 0, 0, 2], "ea": []},
+                     "permuted": {"k": "polycone", "z": [-2, 1, 3], "ro": [4, 5, 5], "ri": [3, 0, 2 + w], "ea": self_ea(rng)}}[layout]
+            if kind == "ell":     # spheroids: two equal semi-axes, the odd one along x, y, z in turn (never a sphere)
+                a, c = rng.sample(range(2, 6), 2)
+                o["r"] = {"axis": [a, a, c], "mirror": [a, c, a], "permuted": [c, a, a]}[layout]
+            g.count("replica:%s:%s" % (kind, layout))
+            r = rb(o)
+            m = rng.choice(SIGNED_PERMS) if rng.random() < 0.6 else IDENT
+            d = 2 * r + rng.randint(1, 2)
+            if layout == "axis":          # a row along one axis, off the origin in the other two
+                ax = rng.randrange(3)
+                base = [rng.randint(-2, 2) for _ in range(3)]
+                places = []
+                for i in range(rng.randint(2, 3)):
+                    c = list(base)
+                    c[ax] = base[ax] + (i - 1) * d
+                    places.append(c)
+            elif layout == "mirror":      # +-c along one axis (and along a second one for four copies)
+                ax, ay = rng.sample(range(3), 2)
+                h = r + rng.randint(1, 2)
+                places = []
+                four = rng.random() < 0.5
+                for sx in (1, -1):
+                    for sy in ((1, -1) if four else (1,)):
+                        c = [0, 0, 0]
+                        c[ax] = sx * h
+                        c[ay] = sy * h if four else rng.choice([0, 1])
+                        places.append(c)
+                if not four:
+                    places[1][ay] = places[0][ay]
+            else:                         # the same offset along x, along y and along z
+                h = (3 * r + 1) // 2 + rng.randint(1, 2)          # h sqrt(2) > 2 r: the copies stay apart
+                places = [[h, 0, 0], [0, h, 0], [0, 0, h]][:rng.randint(2, 3)]
+                if rng.random() < 0.5:
+                    places = [[-v for v in c] for c in places]
+            mats = [place(o, {"m": m, "den": 1, "t": c}) for c in places]
+            ext = max(norm2(c) for c in places) + r + 2
+            scenes.append(_one_unit_scene(g, sid, seed, "replica:" + layout, mats, [(c, r + 1) for c in places], grid_n,
+                                          size=max(ext, 8)))
+    return scenes
+
+
 # ------------------------------------------------------------------ oracle-decided family
 def _rotation(rng):
     """A general rotation matrix (axis-angle), orthonormal to rounding."""
@@ -856,7 +1035,7 @@ def _rotation(rng):
             [z * x * C - y * s, z * y * C + x * s, c + z * z * C]]
 
 
-def oracle_scene(seed, sid, grid_n=9):
+def oracle_scene(seed, sid, grid_n=9, traps_only=False):
     """NOT in the lattice vocabulary (real-valued parameters, irrational angles, general rotations):
     regular prisms with n sides and any orientation, parallelepipeds.  Decided by analytic membership
     functions in the harness (written from the documented definitions) -- labelled oracle-decided."""
@@ -865,8 +1044,12 @@ def oracle_scene(seed, sid, grid_n=9):
     size = g.ri(10, 13)
     b = {"k": "box", "h": [size, size, size]}
     mats, balls = [], []
-    for j in range(g.ri(2, 5)):
-        if rng.random() < 0.5:
+    for j in range(1 if traps_only else g.ri(2, 5)):     # traps_only: one trapezoid, the probe grid dense around it
+        r0 = 0.0 if traps_only else rng.random()
+        if r0 < 0.3:
+            o, rad = _oracle_trap(rng)
+            kind = "oracle:trap"
+        elif r0 < 0.65:
             n = rng.choice([3, 5, 6, 7, 8, 4])
             a, hh = round(rng.uniform(1.5, 4), 3), round(rng.uniform(1.5, 4), 3)
             o = {"k": "oprism", "n": n, "a": a, "hh": hh, "ori": rng.choice([0.0, 0.5, round(rng.random() * 0.999, 3)])}
@@ -897,6 +1080,32 @@ def oracle_scene(seed, sid, grid_n=9):
 
 
 IDENT_F = [[1.0, 0.0, 0.0], [0.0, 1.0, 0.0], [0.0, 0.0, 1.0]]
+
+
+def _oracle_trap(rng):
+    """General trapezoid for GenPrism::from_trap (G4Trap parameters): polar / azimuthal angle of the axis, and per face
+    the y half-width, the x half-lengths at -hy and +hy and the shear angle alpha.  Classes: right (theta = 0),
+    oblique, sheared with equal alphas (planar sides), sheared with different alphas / half-widths per face (twisted
+    sides, still less than a quarter turn), and negative alpha."""
+    u = lambda a, b: round(rng.uniform(a, b), 3)
+    hz = u(1.5, 3.5)
+    theta = rng.choice([0.0, u(0.01, 0.1)])
+    phi = rng.choice([0.0, 0.25, u(0.0, 0.999)])
+    cls = rng.choice(["plain", "shear_same", "shear_diff", "shear_neg"])
+    a_lo = {"plain": 0.0, "shear_same": u(0.02, 0.09), "shear_diff": u(0.02, 0.09), "shear_neg": -u(0.02, 0.09)}[cls]
+    a_hi = a_lo if cls != "shear_diff" else rng.choice([0.0, u(0.0, 0.06), -u(0.0, 0.04)])
+    lo = {"hy": u(1.2, 3.0), "hx_lo": u(1.2, 3.0), "hx_hi": u(1.2, 3.0), "alpha": a_lo}
+    hi = {"hy": u(1.2, 3.0), "hx_lo": u(1.2, 3.0), "hx_hi": u(1.2, 3.0), "alpha": a_hi}
+    if cls == "shear_same" and rng.random() < 0.5:      # same proportions on both faces: planar sides
+        f = u(0.6, 1.4)
+        hi = {"hy": round(lo["hy"] * f, 3), "hx_lo": round(lo["hx_lo"] * f, 3), "hx_hi": round(lo["hx_hi"] * f, 3), "alpha": a_lo}
+    o = {"k": "otrap", "hz": hz, "theta": theta, "phi": phi, "lo": lo, "hi": hi}
+    tt = math.tan(2 * math.pi * theta)
+    ext = 0.0
+    for f in (lo, hi):
+        sh = abs(f["hy"] * math.tan(2 * math.pi * f["alpha"]))
+        ext = max(ext, math.hypot(hz * tt + sh + max(f["hx_lo"], f["hx_hi"]), hz * tt + f["hy"]))
+    return o, math.hypot(ext, hz)
 
 
 # ------------------------------------------------------------------ rectangular arrays (C19)
